@@ -1158,3 +1158,79 @@ def c06_fileopts_flags(ctx):
 
 
 HARNESSES["c06_fileopts_flags"] = c06_fileopts_flags
+
+
+# ---------------------------------------------------------------------------------------------------------
+# C08 (builder part): every digest the builder records is the digest of the bytes it names (digests as uninterpreted functions)
+# ---------------------------------------------------------------------------------------------------------
+def c08_build(ctx, sizes):
+    ex = Exec(ctx.funcs, intrinsics.I, max_steps=8000000)
+    ctx.stats = ex.stats
+    ctx.bounds = ("PackageBuilder .. build() from MIR with files of %s symbolic content bytes, no compression; SHA-256 as an uninterpreted function of the exact bytes hashed: header digest in the signature header, "
+                  "payload digest, alternate payload digest, per-file digests" % ("/".join(map(str, sizes)) or "no"))
+    from intrinsics2 import uf_digest
+    from harnesses_pkg import hexchars
+    from rpmvals import tag, sigtag
+
+    def setup(e):
+        return [sym_bytes(e, "c%d_" % i, n, 0, 255) for i, n in enumerate(sizes)]
+
+    def body(e, inp):
+        clock_stub(e)
+        b = builder_new(ctx, e)
+        b = e.call_fn(ctx.impl_fn("compression", None, "PackageBuilder"), [b, Adt("CompressionWithLevel", "None")])
+        cell = Cell(b)
+        for i in range(len(sizes)):
+            r = e.call_fn(ctx.impl_fn("add_data", None, "PackageBuilder"), [Ref(cell), VecV([Int(x, "u8") for x in inp[i]]), Adt("Timestamp", "Timestamp", [Int(5, "u32")]), file_options(b"/d/f%d" % i)])
+            assert r.variant == "Ok"
+        r = e.call_fn(ctx.impl_fn("build", None, "PackageBuilder"), [cell.v])
+        pkg = r.fields[0]
+        hb = VecV([])
+        w = e.call_fn(ctx.impl_fn("write", None, "Header"), [Ref(Cell(pkg.fields[0].fields[2])), Ref(Cell(hb))])
+        assert w.variant == "Ok"
+        return r, as_bytes(e, hb)
+
+    def on_path(e, inp, out):
+        k, v = out
+        if k != "return":
+            ctx.fail("building panics: %s" % (v,), "PackageBuilder::build", kind="c08b", sizes=list(sizes))
+            return
+        r, hb = v
+        ctx.cover("package built", r.variant == "Ok")
+        pkg = r.fields[0]
+        meta, content = pkg.fields[0], as_bytes(e, pkg.fields[1])
+        sig = {ent.fields[0].conc(): ent.fields[1] for ent in meta.fields[1].fields[1].items}
+        hdr = {ent.fields[0].conc(): ent.fields[1] for ent in meta.fields[2].fields[1].items}
+
+        def hexof(bs):
+            return Str(hexchars(uf_digest("sha256", list(bs))))
+        checks = []
+        d = sig.get(sigtag("RPMSIGTAG_SHA256"))
+        checks.append(("header SHA-256 in the signature header", d is not None and d.variant == "StringTag" and not e._check(z3.Not(_eq_str(e, d.fields[0], hexof(hb))))))
+        d = hdr.get(tag("RPMTAG_PAYLOADDIGEST"))
+        checks.append(("payload digest", d is not None and len(d.fields[0].items) == 1 and not e._check(z3.Not(_eq_str(e, d.fields[0].items[0], hexof(content))))))
+        d = hdr.get(tag("RPMTAG_PAYLOADDIGESTALT"))
+        checks.append(("alternate payload digest (uncompressed archive; no compression here)", d is not None and len(d.fields[0].items) == 1 and not e._check(z3.Not(_eq_str(e, d.fields[0].items[0], hexof(content))))))
+        d = hdr.get(tag("RPMTAG_PAYLOADDIGESTALGO"))
+        checks.append(("payload digest algorithm id (SHA-256 = 8)", d is not None and not e._check(d.fields[0].items[0].e != 8)))
+        if sizes:
+            d = hdr.get(tag("RPMTAG_FILEDIGESTS"))
+            okf = d is not None and len(d.fields[0].items) == len(sizes) and all(not e._check(z3.Not(_eq_str(e, x, hexof(inp[i])))) for i, x in enumerate(d.fields[0].items))
+            checks.append(("per-file digests", okf))
+            d = hdr.get(tag("RPMTAG_FILEDIGESTALGO"))
+            checks.append(("file digest algorithm id", d is not None and not e._check(d.fields[0].items[0].e != 8)))
+        for what, good in checks:
+            if not good:
+                ctx.fail("the built package records a wrong %s" % what, "PackageBuilder::build", kind="c08b", sizes=list(sizes), what=what)
+                return
+    ex.run_all(setup, body, on_path)
+
+
+def replay_c08b(ctx, fl):
+    ans = ctx.native.ask("build_digests", ",".join(str(x) for x in fl.get("sizes", [])) or "-")
+    return not ans.startswith("same"), "real crate: package with files of those sizes built through the public API, recorded digests vs recomputed ones -> " + ans[:120]
+
+
+REPLAYERS["c08"] = (lambda prev: (lambda ctx, fl: replay_c08b(ctx, fl) if fl.get("kind") == "c08b" else prev(ctx, fl)))(REPLAYERS["c08"])
+for _sz in ((), (1,), (0, 3), (2, 1, 4)):
+    HARNESSES["c08_build_" + ("_".join(map(str, _sz)) or "empty")] = (lambda sz: (lambda ctx: c08_build(ctx, sz)))(_sz)
